@@ -533,17 +533,20 @@ def constant_name_clash(ast, table: NameTable):
     """A named constant of the tree whose notation is also a display name of the tree (imaginary unit i next to an
     index i, Euler's e next to a charge e): the rendering is ambiguous by the choice of names, not by the printer."""
     found = set()
+    fnames = set()
 
     def walk(x):
         if x[0] == "cst":
             found.add(x[1])
-        elif x[0] in ("add", "mul"):
+        elif x[0] == "fn" and not x[1].startswith("F:"):
+            fnames.add(x[1])
+        if x[0] in ("add", "mul"):
             for y in x[1]:
                 walk(y)
         elif x[0] == "fn":
             for y in x[2]:
                 walk(y)
-        elif x[0] not in ("num", "sym"):
+        elif x[0] not in ("num", "sym", "cst"):
             for y in x[1:]:
                 walk(y)
 
@@ -556,6 +559,9 @@ def constant_name_clash(ast, table: NameTable):
             clash = tok is not None and (tok,) in table.variants
         if clash:
             return name
+    for name in sorted(fnames):
+        if table.syms.get(name) in ("fn", "both"):
+            return name + "()"          # e.g. the logarithm next to a declared function named log
     return None
 
 
@@ -1014,14 +1020,21 @@ class LatexParser:
             return self.apply(lambda args: ("exp", args[0]) if len(args) == 1 else ("fn", "exp", args))
         if t in LATEX_FUNCS:
             name = LATEX_FUNCS[t]
+            declared = None
             if name is None:
                 self.expect("{")
                 name = ""
                 while self.peek() != "}":
                     name += self.take()
                 self.expect("}")
-                if name not in KNOWN_FUNCS or INTERNAL_NAME.match(name):
+                if self.table.syms.get(name) in ("fn", "both"):
+                    declared = name        # a declared function with a multi-letter name is typeset upright
+                elif name not in KNOWN_FUNCS or INTERNAL_NAME.match(name):
                     self.unknown.append(name)
+            elif self.table.syms.get(t[1:]) in ("fn", "both"):
+                declared = t[1:]           # a declared function named log / sin ..: \\log is its (upright) name
+            if declared is not None and self.peek() != "_":
+                return self.apply(lambda args: ("fn", "F:" + declared, args))
             sub = None
             power = None
             while self.peek() in ("_", "^"):
